@@ -64,9 +64,11 @@ void check_type(const std::string& name, MK&& mk, GET&& get, int part, int npart
     }
     push(c);
   }
-  if (N >= 6) {
-    // tie-prefix family with signed zeros and infinities in each slot (not in the product alphabet)
-    const T ex[] = {-std::numeric_limits<T>::infinity(), -(T)0, (T)0, std::numeric_limits<T>::infinity(), (T)2};
+  if (N >= 2) {
+    // tie-prefix family: equal in the first k slots, slot k drawn from signed zeros, infinities, the floating-point neighbours of 1
+    // (distinguishable only at the full precision of T) and the extremes of T's range, then a tail pointing the other way
+    const T ex[] = {-std::numeric_limits<T>::infinity(), -(T)0, (T)0, std::numeric_limits<T>::infinity(), (T)2, std::nextafter((T)1, (T)2), std::nextafter((T)1, (T)0),
+                    std::numeric_limits<T>::max(), std::numeric_limits<T>::max() / 2, std::numeric_limits<T>::min(), std::numeric_limits<T>::min() * 2};
     for (int k = 0; k < N; k++)
       for (T v : ex)
         for (int tail = 0; tail < 2; tail++) {
